@@ -286,7 +286,7 @@ fn roles_for(sc: &Scen, prop: &str) -> Vec<Role> {
     let mut r = vec![Role::Subject];
     match prop {
         "C11" => r.push(Role::OtherFlavour),
-        "C02" => {
+        "C01" | "C02" => {
             if !matches!(sc.w, WKind::None) {
                 r.push(Role::Reweighted);
             }
@@ -606,7 +606,7 @@ impl<'a, T: Sc> Explorer<'a, T> {
                     let what = if s.res != t.res { "residuals" } else if s.coef != t.coef { "coefficients" } else if s.jac != t.jac { "jacobian" } else { "params" };
                     let (p, sig) = match role {
                         Role::OtherFlavour => ("C11", "parallel-differs-from-sequential"),
-                        Role::Reweighted => (if prop == "C02" { "C02" } else { "C06" }, "weights-applied-more-than-once"),
+                        Role::Reweighted => (if prop == "C02" { "C02" } else if prop == "C01" { "C01" } else { "C06" }, "weights-applied-more-than-once"),
                         _ => ("C06", "unit-weights-differ-from-no-weights"),
                     };
                     self.violate(p, sig, format!("{} differ bitwise between the two problems at alphabet entry {}", what, ai));
@@ -1004,6 +1004,54 @@ fn scenarios(prop: &str, thorough: bool) -> Vec<Scen> {
                             }
                         }
                     }
+                }
+            }
+            // many right-hand sides (past any block size of a column-blocked implementation; 11 and 70 are not multiples of 8 / 64)
+            for (fam, n) in [(Family::Exp2Off, 9usize), (Family::OLeary, 8)] {
+                for par in [false, true] {
+                    if prop == "C11" && !par {
+                        continue;
+                    }
+                    for f32_ in [false, true] {
+                        for ncols in [11usize, 70] {
+                            if !thorough && (f32_ || (ncols == 70) != par) {
+                                continue;
+                            }
+                            let pool = [YCol::Noisy, YCol::Off, YCol::OnModel, YCol::OnPlusOff, YCol::Zero];
+                            let ycols: Vec<YCol> = (0..ncols).map(|i| pool[(i * 3) % 5].clone()).collect();
+                            let mut s = mk(&fam, n, if par { Prov::Hand } else { Prov::Built }, f32_, par, Api::Mrhs, ycols, if ncols == 11 { WKind::Ramp } else { WKind::None }, EpsKind::Default);
+                            s.alphas.truncate(4);
+                            s.depth = 2;
+                            v.push(s);
+                        }
+                    }
+                }
+            }
+            // many basis functions (the decomposition needs many sweeps): 16 and 24 decays
+            for (fam, n) in [(Family::ExpN(16), 40usize), (Family::ExpN(24), 60)] {
+                for par in [false, true] {
+                    if prop == "C11" && !par {
+                        continue;
+                    }
+                    if !thorough && !par && fam.m() > 16 {
+                        continue;
+                    }
+                    let mut s = mk(&fam, n, Prov::Hand, false, par, Api::Single, vec![YCol::Noisy], WKind::None, EpsKind::Default);
+                    s.alphas.truncate(3);
+                    s.depth = 2;
+                    v.push(s);
+                }
+            }
+            // a FINITE basis matrix whose decomposition yields non-finite singular values in f32 (entries from 1e-13 to 4e24: the
+            // state the optimizer reached in the second C08 defect), visited between ordinary states
+            for par in [false, true] {
+                if prop == "C11" && !par {
+                    continue;
+                }
+                for (api, ycols) in [(Api::Single, vec![YCol::Noisy]), (Api::Mrhs, vec![YCol::Noisy, YCol::Off])] {
+                    let mut s = mk(&Family::ExpN(4), 8, Prov::Hand, true, par, api, ycols, WKind::None, EpsKind::Default);
+                    s.alphas = vec![vec![0.52, 1.35, 3.5, 9.0], vec![0.4652356, 1.0640211, -0.105895996, 0.20005608], vec![0.5, 1.25, 3.125, 7.8125], vec![0.46, 1.06, -0.1059, 0.2]];
+                    v.push(s);
                 }
             }
             // the state right after build() is the delicate one: (nearly) equal decay constants under a user threshold come FIRST
